@@ -134,8 +134,13 @@ def verify(ctx, repo, registry, prefix, qualnames, harness, expect_covers=(), ma
             ctx.extra.setdefault("obligations_left_to_their_own_property", 0)
             ctx.extra["obligations_left_to_their_own_property"] += 1
             continue
+        if a["kind"] == "term" and a["status"] == "refuted":
+            # a term-level obligation compares the library expression the code builds with the expected one: a mismatch may be an equivalent spelling,
+            # so it is not a violation by itself - the native stand-in of the property (real pandas) decides; reported as undecided (exit 2)
+            a["status"] = "undecided"
+            a["detail"] = "term-level mismatch (the code builds a different library expression than the contract expects; equivalent spelling or defect - see the bounded stand-in): " + a["detail"]
         status = {"discharged": core.DISCHARGED, "refuted": core.REFUTED, "undecided": core.UNDECIDED}[a["status"]]
-        ctx.add_obligation(full, status, "z3", a["time"], "%s (%d path occurrence(s))" % (a["detail"], a["paths"]))
+        ctx.add_obligation(full, status, "z3" if a["kind"] != "term" else "term", a["time"], "%s (%d path occurrence(s))" % (a["detail"], a["paths"]))
         if a["status"] == "refuted":
             payload = {"obligation": full, "solver": "z3 sat", "model": a["model"], "detail": a["detail"], "functions": [f.qualname for f in funcs]}
             found = False
